@@ -78,11 +78,19 @@ def _body_factory(model_name, dll_dir, tmp_dir):
         kerneldll.SAS_DLL_PATH = dll_dir
         tempfile.tempdir = tmp_dir
         info = STATE["info"][model_name]
-        model = core.build_model(info, dtype="double", platform="dll")
-        kernel = model.make_kernel([np.array(Q)])
-        pars = dict(PARS) if model_name == "sphere" else {"scale": 2.0, "background": 0.125, "radius_pd": 0.1, "radius_pd_n": 5}
-        res = call_kernel(kernel, pars)
-        return [float(v).hex() for v in res]
+
+        def attempt():
+            model = core.build_model(info, dtype="double", platform="dll")
+            kernel = model.make_kernel([np.array(Q)])
+            pars = dict(PARS) if model_name == "sphere" else {"scale": 2.0, "background": 0.125, "radius_pd": 0.1, "radius_pd_n": 5}
+            res = call_kernel(kernel, pars)
+            return [float(v).hex() for v in res]
+        try:
+            return attempt()
+        except KeyboardInterrupt:
+            # an interrupted load: "the next attempt to load that model succeeds" - here the next attempt is made by
+            # the SAME process (whatever it remembered about the first attempt must not get in the way)
+            return ["retried-after-interrupt"] + attempt()
     return body
 
 
@@ -199,6 +207,20 @@ def run_exec(spec):
             elif st and st[0] == "exit" and st[1] == 0 and ph1.results.get(cc_victim) != ref["values"]:
                 fails.append(("wrong-values", "phase 1: process %d returned %r after its compiler was killed" % (cc_victim, ph1.results.get(cc_victim))))
             victims = list(victims) + [cc_victim]
+        if ph1.killed_at and ph1.killed_at.get("interrupt") and not ph1.killed_at.get("not_reached"):
+            v = ph1.killed_at["victims"][0]
+            st = ph1.status.get(v)
+            got = ph1.results.get(v)
+            if st is None or st[0] != "exit" or st[1] != 0 or not got:
+                err = ph1.errors.get(v, "")
+                fails.append(("retry-after-interrupt-failed",
+                              "phase 1: process %d was interrupted at %r; its next attempt in the same process ended with "
+                              "%r %s" % (v, ph1.killed_at["at"].get(str(v)), st, err.strip().splitlines()[-1] if err else "")))
+            elif got[0] == "retried-after-interrupt" and got[1:] != ref["values"]:
+                fails.append(("wrong-values", "phase 1: process %d returned %r on its retry after an interrupt, reference %r"
+                              % (v, got[1:], ref["values"])))
+            elif got[0] != "retried-after-interrupt" and got != ref["values"]:
+                fails.append(("wrong-values", "phase 1: process %d returned %r, reference %r" % (v, got, ref["values"])))
         if kill and not ph1.killed_at:
             out["kill_not_reached"] = True
         _judge_phase(ph1, ref, range(spec["n1"]), "phase 1", fails, victims)
